@@ -228,8 +228,94 @@ def init_wrapper(fn):
     raise Unsupported("is_init branch not found")
 
 
+# --------------------------------------------------------------------------- toggles (C15)
+PURE_CALLS = {"isinstance", "hasattr", "len", "callable", "getattr", "all", "any", "bool", "type", "id",
+              "inspect.isfunction", "inspect.iscoroutinefunction", "issubclass", "is_lambda", "isinstance"}
+
+
+def assert_effect_free(test):
+    for n in ast.walk(test):
+        if isinstance(n, (ast.NamedExpr, ast.Await, ast.Yield, ast.YieldFrom, ast.Lambda)):
+            return False
+        if isinstance(n, ast.Call):
+            name = ast.unparse(n.func)
+            if name not in PURE_CALLS and not name.endswith(".format") and not name.endswith(".get"):
+                return False
+    return True
+
+
+def toggles(trees, parse) -> str:
+    out = ["(* C15: what decides whether a contract is enabled, read off the source *)"]
+    tree, _ = parse("icontract/_globals.py")
+    slow = None
+    for node in tree.body:
+        if isinstance(node, ast.Assign) and len(node.targets) == 1 and isinstance(node.targets[0], ast.Name) \
+                and node.targets[0].id == "SLOW":
+            slow = node.value
+    if slow is None:
+        raise Unsupported("SLOW not found")
+
+    def tr(e):
+        if isinstance(e, ast.BoolOp):
+            op = " && " if isinstance(e.op, ast.And) else " || "
+            return "(" + op.join(tr(v) for v in e.values) + ")"
+        if isinstance(e, ast.UnaryOp) and isinstance(e.op, ast.Not):
+            return "(negb %s)" % tr(e.operand)
+        if isinstance(e, ast.Name) and e.id == "__debug__":
+            return "debug"
+        if isinstance(e, ast.Constant) and isinstance(e.value, bool):
+            return "true" if e.value else "false"
+        if isinstance(e, ast.Compare) and len(e.ops) == 1 and isinstance(e.ops[0], (ast.Eq, ast.NotEq)):
+            l, r = e.left, e.comparators[0]
+            if (isinstance(l, ast.Call) and ast.unparse(l.func) == "os.environ.get" and len(l.args) == 2
+                    and isinstance(l.args[0], ast.Constant) and l.args[0].value == "ICONTRACT_SLOW"
+                    and isinstance(l.args[1], ast.Constant) and isinstance(l.args[1].value, str)
+                    and isinstance(r, ast.Constant) and isinstance(r.value, str)):
+                t = "(String.eqb (match env with Some s_ => s_ | None => %s end) %s)" % (cstr(l.args[1].value), cstr(r.value))
+                return t if isinstance(e.ops[0], ast.Eq) else "(negb %s)" % t
+        raise Unsupported("SLOW expression: %s" % ast.unparse(e))
+    out.append("Definition slow_expr (debug : bool) (env : option string) : bool := %s." % tr(slow))
+
+    tree, _ = parse("icontract/_decorators.py")
+    for cls in tree.body:
+        if not isinstance(cls, ast.ClassDef) or cls.name not in ("require", "ensure", "snapshot", "invariant"):
+            continue
+        init = next(n for n in cls.body if isinstance(n, ast.FunctionDef) and n.name == "__init__")
+        call = next(n for n in cls.body if isinstance(n, ast.FunctionDef) and n.name == "__call__")
+        names = [a.arg for a in init.args.args]
+        defaults = dict(zip(names[len(names) - len(init.args.defaults):], init.args.defaults))
+        d = defaults.get("enabled")
+        if d is None:
+            raise Unsupported("no default for enabled in %s" % cls.name)
+        out.append("Definition enabled_default_%s (debug : bool) : bool := %s." % (cls.name, tr(d)))
+        # __call__ starts with: if not self.enabled: return <its argument>
+        body = [st for st in call.body if not (isinstance(st, ast.Expr) and isinstance(st.value, ast.Constant))]
+        first = body[0]
+        arg = call.args.args[1].arg
+        ok = (isinstance(first, ast.If) and ast.unparse(first.test) == "not self.enabled" and len(first.body) == 1
+              and isinstance(first.body[0], ast.Return) and ast.unparse(first.body[0].value) == arg and not first.orelse)
+        out.append("Definition early_return_%s : bool := %s." % (cls.name, "true" if ok else "false"))
+        # __init__ stores the flag and does nothing else when disabled
+        stores = any(isinstance(st, ast.Assign) and ast.unparse(st.targets[0]) == "self.enabled"
+                     and ast.unparse(st.value) == "enabled" for st in init.body)
+        out.append("Definition stores_enabled_%s : bool := %s." % (cls.name, "true" if stores else "false"))
+    # every assert statement of the library is free of effects (they disappear under -O)
+    total, bad = 0, []
+    for path in ("icontract/_checkers.py", "icontract/_decorators.py", "icontract/_metaclass.py", "icontract/_represent.py",
+                 "icontract/_recompute.py", "icontract/_types.py", "icontract/_globals.py", "icontract/__init__.py"):
+        tree, _ = parse(path)
+        for n in ast.walk(tree):
+            if isinstance(n, ast.Assert):
+                total += 1
+                if not assert_effect_free(n.test):
+                    bad.append("%s:%d" % (path, n.lineno))
+    out.append("Definition assert_statements : nat := %d." % total)
+    out.append("Definition asserts_with_possible_effect : list string := [%s]." % "; ".join(cstr(b) for b in bad))
+    return "\n".join(out) + "\n"
+
+
 def generate(trees, parse) -> str:
-    out = []
+    out = [toggles(trees, parse)]
     path = "icontract/_checkers.py"
     if path not in trees:
         trees[path] = parse(path)
